@@ -33,4 +33,7 @@ pub use elias_fano::{EliasFano, EliasFanoCursor, EliasFanoIter};
 pub use popcount::{popcount_word, popcount_word_portable, popcount_words};
 pub use rank::RankDirectory;
 pub use scan::{block_popcount_portable, scan_select, scan_select_scalar, select_from, BLOCK};
+#[cfg(all(feature = "verif-hooks", target_arch = "x86_64"))]
+#[doc(hidden)]
+pub use scan::block_popcount_avx2 as verif_block_popcount_avx2;
 pub use select::{SampleWord, SelectIndex};
